@@ -2,7 +2,7 @@
 
 import ast
 
-from ..astutil import const_value, call_attr, call_recv, calls_in, norm, walk_own
+from ..astutil import call_name, const_value, call_attr, call_recv, calls_in, norm, walk_own
 from ..cfg import build_cfg
 from ..rules import calling, need
 from ..selftest import Mutant
@@ -29,6 +29,8 @@ reported, not an analysis error). conflict-helpers-listed — the suffix table o
 BASE) is compared with associated_filenames() of every conflict class (bzr and git) whose kind is raised next to a
 _dump_conflicts call: all suffixes must be listed, except the first of the order for kinds whose first helper is
 versioned by the merger (contents conflict).
+Fourth round: user-ignores-read-afresh — every path of ignores.get_user_ignores opens the file; conflict-list-from-raw-index —
+GitWorkingTree.conflicts iterates self.index.iteritems().
 Does not decide: parent-directory versioning, nor that nothing else becomes versioned (tree values).
 """
 
@@ -185,6 +187,23 @@ def run(ctx):
     _ub = [b for b in bound_names(fgd, lambda t, n: bool(_lt) and t == f"user_dirs[{_lt[0][0]}]") if isinstance(b, tuple) and len(b) == 2]
     ctx.check("named-dirs-all-walked", wg, len(ys) == 1 and len(_lt) == 1 and len(_ub) == 1 and norm(ys[0].value) == f"({_lt[0][0]}, {_ub[0][0]}, {_ub[0][1]}, None)", "what is yielded is the named directory's own entry")
 
+    # ---- fourth round: the sources of the exclusion predicates are read afresh -------------------------------------------
+    # (a) the user-wide ignore file is opened on every call (no process-wide copy that outlives an edit of the file)
+    IGF = "breezy/ignores.py"
+    fgu, ggu, wgu = None, None, f"{IGF}:get_user_ignores"
+    fgu = repo.func(IGF, "get_user_ignores")
+    ggu = build_cfg(fgu)
+    opens = [n.id for n in ggu.nodes if any(call_name(c) in ("open", "io.open") or call_attr(c) in ("open", "get_bytes", "get") and "transport" in (call_recv(c) or "") for c in n.calls())]
+    rets_gu = [n.id for n in ggu.nodes if n.kind == "stmt" and isinstance(n.ast, ast.Return)]
+    early_gu = sorted(set(rets_gu) & ggu.without_exc_edges().reach([ggu.entry], avoid=set(opens), include_src=True))
+    mod_cache = any(isinstance(n_, ast.Global) for n_ in ast.walk(fgu))
+    ctx.check("user-ignores-read-afresh", wgu, bool(opens) and not early_gu and not mod_cache, "every path of get_user_ignores opens the ignore file before it returns", construct="; ".join(ggu.nodes[i].text()[:50] for i in early_gu), message="get_user_ignores can answer without opening the user's ignore file (a copy kept for the life of the process): a rule the user adds to the file by hand is not seen by a later recursive add in the same process, files matching it get versioned")
+    # (b) the git tree's conflict list (the source of the helper-file set) is built from the raw index, conflicted entries of every shape
+    fgc = repo.func(GW, "GitWorkingTree.conflicts")
+    loops_gc = [l_ for l_ in ast.walk(fgc) if isinstance(l_, ast.For) and any("ConflictedIndexEntry" in norm(n_) for n_ in ast.walk(l_))]
+    ctx.require(len(loops_gc) == 1, f"{GW}:GitWorkingTree.conflicts: loop over the index entries not found")
+    raw = norm(loops_gc[0].iter) in ("self.index.iteritems()", "self.index.items()", "self.index")
+    ctx.check("conflict-list-from-raw-index", f"{GW}:GitWorkingTree.conflicts", raw, "conflicts() walks the index itself (self.index.iteritems())", construct=norm(loops_gc[0].iter), message=f"GitWorkingTree.conflicts iterates {norm(loops_gc[0].iter)} instead of the raw index: a filtered walker hides conflicted entries of some shapes (a delete/modify conflict has no THIS side), conflicts() misses them, their <path>.BASE / .OTHER are not in the helper-file set and a recursive add versions them")
     # ---------------- git --------------------------------------------------------------
     fn = repo.func(GW, "GitWorkingTree.smart_add")
     where = f"{GW}:GitWorkingTree.smart_add"
